@@ -15,7 +15,7 @@ package operations
 //@   property C10
 //@   safety C10
 //@   requires o != nil && opsReady(o) && opsIdle(o)
-//@   modifies *, driveHeld, mutexHeld[addr(o.diskOperationLock)], tapeWrites, indexWrites, ghosts(C04), ghosts(C08), ghosts(C09), ghosts(C05), ghosts(C14)
+//@   modifies *, driveHeld, mutexHeld[addr(o.diskOperationLock)], tapeWrites, indexWrites, ghosts(C04), ghosts(C08), ghosts(C09), ghosts(C05), ghosts(C14), ghosts(C07)
 //@   ensures [drive-free] !driveHeld
 //@   ensures [ops-free] !mutexHeld[addr(o.diskOperationLock)]
 
@@ -27,7 +27,7 @@ package operations
 //@   property C10
 //@   safety C10
 //@   requires o != nil && opsReady(o) && opsIdle(o)
-//@   modifies *, driveHeld, mutexHeld[addr(o.diskOperationLock)], tapeWrites, indexWrites, ghosts(C04), ghosts(C08), ghosts(C09), ghosts(C05), ghosts(C14)
+//@   modifies *, driveHeld, mutexHeld[addr(o.diskOperationLock)], tapeWrites, indexWrites, ghosts(C04), ghosts(C08), ghosts(C09), ghosts(C05), ghosts(C14), ghosts(C07)
 //@   ensures [drive-free] !driveHeld
 //@   ensures [ops-free] !mutexHeld[addr(o.diskOperationLock)]
 
@@ -37,7 +37,7 @@ package operations
 //@   property C10
 //@   safety C10
 //@   requires o != nil && opsReady(o) && opsIdle(o)
-//@   modifies *, driveHeld, mutexHeld[addr(o.diskOperationLock)], ghosts(C04), ghosts(C08), ghosts(C09), ghosts(C05), ghosts(C14)
+//@   modifies *, driveHeld, mutexHeld[addr(o.diskOperationLock)], ghosts(C04), ghosts(C08), ghosts(C09), ghosts(C05), ghosts(C14), ghosts(C07)
 //@   ensures [drive-free] !driveHeld
 //@   ensures [ops-free] !mutexHeld[addr(o.diskOperationLock)]
 
@@ -45,7 +45,7 @@ package operations
 //@   property C10
 //@   safety C10
 //@   requires o != nil && opsReady(o) && opsIdle(o) && getSrc != nil
-//@   modifies *, driveHeld, mutexHeld[addr(o.diskOperationLock)], tapeWrites, indexWrites, ghosts(C04), ghosts(C08), ghosts(C09), ghosts(C05), ghosts(C14)
+//@   modifies *, driveHeld, mutexHeld[addr(o.diskOperationLock)], tapeWrites, indexWrites, ghosts(C04), ghosts(C08), ghosts(C09), ghosts(C05), ghosts(C14), ghosts(C07)
 //@   ensures [drive-free] !driveHeld
 //@   ensures [ops-free] !mutexHeld[addr(o.diskOperationLock)]
 
@@ -63,7 +63,7 @@ package operations
 //@   property C10
 //@   safety C10
 //@   requires o != nil && opsReady(o) && !driveHeld && getSrc != nil
-//@   modifies *, driveHeld, tapeWrites, indexWrites, ghosts(C04), ghosts(C08), ghosts(C09), ghosts(C05), ghosts(C14)
+//@   modifies *, driveHeld, tapeWrites, indexWrites, ghosts(C04), ghosts(C08), ghosts(C09), ghosts(C05), ghosts(C14), ghosts(C07)
 //@   ensures [drive-free] !driveHeld
 
 //@ func (*Operations).Update
@@ -82,7 +82,7 @@ package operations
 //@   property C10
 //@   safety C10
 //@   requires o != nil && opsReady(o) && opsIdle(o) && getSrc != nil
-//@   modifies *, driveHeld, mutexHeld[addr(o.diskOperationLock)], tapeWrites, indexWrites, ghosts(C04), ghosts(C08), ghosts(C09), ghosts(C05), ghosts(C14)
+//@   modifies *, driveHeld, mutexHeld[addr(o.diskOperationLock)], tapeWrites, indexWrites, ghosts(C04), ghosts(C08), ghosts(C09), ghosts(C05), ghosts(C14), ghosts(C07)
 //@   ensures [drive-free] !driveHeld
 //@   ensures [ops-free] !mutexHeld[addr(o.diskOperationLock)]
 
@@ -90,7 +90,7 @@ package operations
 //@   property C10
 //@   safety C10
 //@   requires o != nil && opsReady(o) && opsIdle(o)
-//@   modifies *, driveHeld, mutexHeld[addr(o.diskOperationLock)], tapeWrites, indexWrites, ghosts(C04), ghosts(C08), ghosts(C09), ghosts(C05), ghosts(C14)
+//@   modifies *, driveHeld, mutexHeld[addr(o.diskOperationLock)], tapeWrites, indexWrites, ghosts(C04), ghosts(C08), ghosts(C09), ghosts(C05), ghosts(C14), ghosts(C07)
 //@   ensures [drive-free] !driveHeld
 //@   ensures [ops-free] !mutexHeld[addr(o.diskOperationLock)]
 
